@@ -344,19 +344,19 @@ Section Verify.
     let addr := from_hex (p_address r) in
     if negb (bytes_eqb addr contract) then []
     else
-      let q1 := [QKeccak addr; QMpt (bytes_to_hash root) (keccak256 addr) (map from_hex (p_account_proof r))] in
+      [QKeccak addr; QMpt (bytes_to_hash root) (keccak256 addr) (map from_hex (p_account_proof r))] ++
       match mpt_verify (bytes_to_hash root) (keccak256 addr) (map from_hex (p_account_proof r)) with
-      | None => q1
+      | None => []
       | Some acct_val =>
           let acct := account_of_record r in
-          if negb (bytes_eqb (rlp_account acct) acct_val) then q1
+          if negb (bytes_eqb (rlp_account acct) acct_val) then []
           else
             match p_storage_proof r with
             | [Some sp] =>
                 let k := hex_to_hash (sr_key sp) in
-                if negb (bytes_eqb k pkey) then q1
-                else q1 ++ [QKeccak k; QMpt (a_storage acct) (keccak256 k) (map from_hex (sr_proof sp))]
-            | _ => q1
+                if negb (bytes_eqb k pkey) then []
+                else [QKeccak k; QMpt (a_storage acct) (keccak256 k) (map from_hex (sr_proof sp))]
+            | _ => []
             end
       end.
 
